@@ -24,7 +24,7 @@ ASSUMPTIONS = ['interleavings at synchronisation-operation granularity (locks, e
 
 N_EXAMPLES = {'quick': 600, 'thorough': 10000}
 PARAMS = {'m0': ['a', 'b'], 'm1': ['a', 'b']}
-SCOPES = [None, 'm0', 'm1', 'm0:_a', 'm0:_b', 'm1:_a']
+SCOPES = [None, 'm0', 'm1', 'm0:_a', 'm0:_b', 'm1:_a', 'm0x', 'm0x:_a']     # m0 is a proper prefix of the module name m0x
 
 
 def shards(tier, seed):
@@ -106,6 +106,9 @@ def scenario(draw):
     fmod = draw(st.sampled_from(['m0', 'm1']))
     fpar = draw(st.sampled_from(['a', 'b']))
     scopes = [None, fmod, f'{fmod}:_{fpar}'] * 3 + SCOPES
+    prefix_twin = draw(st.integers(0, 3)) == 0     # part of the traffic goes to the module whose name starts with the other's name
+    if prefix_twin:
+        scopes += ['m0', 'm0x', f'm0x:_{fpar}', 'm0'] * 2
     conns = []
     for _ in range(draw(st.integers(1, 3))):
         script = []
@@ -121,6 +124,8 @@ def scenario(draw):
         ops = []
         for _ in range(draw(st.integers(1, 8))):
             mod, par = (fmod, fpar) if draw(st.integers(0, 3)) else (draw(st.sampled_from(['m0', 'm1'])), draw(st.sampled_from(['a', 'b', 'hid'])))
+            if prefix_twin and draw(st.booleans()):
+                mod = 'm0x'
             ops.append([draw(st.sampled_from(['assign', 'assign', 'read', 'error'])), mod, par, draw(st.sampled_from(DELAYS))])
         drivers.append(ops)
     return {'kind': 'scenario', 'conns': conns, 'drivers': drivers, 'schedule': draw(st.lists(st.integers(0, 3), min_size=20, max_size=200))}
@@ -163,7 +168,8 @@ def run_scenario(case, preempt=None):
             return type('C' + modname, (Readable,), {
                 'a': Parameter('a', IntRange(), default=0), 'b': Parameter('b', IntRange(), default=0),
                 'hid': Parameter('hidden', IntRange(), default=0, export=False), 'read_a': read_a, 'read_b': read_b})
-        kit = Kit({'m0': {'cls': mk('m0'), 'description': 'm0'}, 'm1': {'cls': mk('m1'), 'description': 'm1'}})
+        kit = Kit({'m0': {'cls': mk('m0'), 'description': 'm0'}, 'm1': {'cls': mk('m1'), 'description': 'm1'},
+                   'm0x': {'cls': mk('m0x'), 'description': 'm0x'}})
         for mname, mobj in kit.modules.items():
             for pname in ('a', 'b', 'hid', 'value', 'status', 'pollinterval'):
                 def cb(*args, mname=mname, pname=pname):
@@ -275,7 +281,7 @@ def check(ctx, case, preempt=None):
         ctx.finding(f'run:{type(out["error"]).__name__}', sub, repr(out['error'])[:400])
         return
     truth = out['truth']       # (step, mod, pname, value)
-    exported = {(m, p) for m in ('m0', 'm1') for p in ('a', 'b', 'value', 'status', 'pollinterval')}
+    exported = {(m, p) for m in ('m0', 'm1', 'm0x') for p in ('a', 'b', 'value', 'status', 'pollinterval')}
     racing = False
     for ci, script in enumerate(case['conns']):
         msgs = parse(out['logs'][f'c{ci}'])
@@ -420,6 +426,9 @@ def same(tval, val):
 
 
 CATALOGUE = [
+    # a module whose name is a proper prefix of another module's name: deactivating the shorter leaves the longer subscribed
+    {'conns': [[['activate', 'm0x', 0], ['activate', 'm0', 0], ['deactivate', 'm0', 1.0], ['ping', None, 3.0]]],
+     'drivers': [[['assign', 'm0x', 'a', 0.5], ['assign', 'm0x', 'a', 1.5], ['assign', 'm0', 'a', 0]]]},
     # subscriptions of different scope held by two connections on the same parameter
     {'conns': [[['activate', 'm0:_a', 0], ['ping', None, 6.0]], [['activate', None, 0.5], ['deactivate', None, 2.0], ['ping', None, 2.0]]],
      'drivers': [[['assign', 'm0', 'a', 1.0], ['assign', 'm0', 'a', 2.5], ['assign', 'm0', 'a', 1.0]]]},
